@@ -27,6 +27,25 @@ def keep(c):
 def finding_key(c, r):
     return None
 
-LEVEL_TEXT = 'Theorems (Props/C20.v): the tokenizer ignores ASCII letter case; two queries with the same lower-casing get the same answer from the index/NLP pipeline. Tied by the engine correspondence, where every case is also run with a randomly re-cased query and must give the bit-identical answer (all paths incl. typo fallback and NLP).'
+def _c14():
+    import importlib
+    return importlib.import_module("props.c14")
+
+
+def ws_case(c):
+    r = _c14().res
+    return "{| w_q := %s; w_v := %s; w_res_q := %s; w_res_v := %s |}" % (core.cbytes(bytes(c["q"] or [])), core.cbytes(bytes(c["v"] or [])), r(c["res_q"]), r(c["res_v"]))
+
+
+FAMILIES = {"ws": dict(
+    HARNESS="c20ws", N={"quick": 400, "thorough": 6000}, SHARD=100, CASE_TYPE="wscase", CHECK_FN="check_cases",
+    HEADER="From WTF Require Import Model.Validate Model.Text Check.Render Check.C14 Check.C20Ws.",
+    coq_case=ws_case, identity=lambda c: [c["q"], c["v"]],
+    sample=lambda c: {"family": "whitespace", "query": bytes(c["q"] or []).decode("utf-8", "replace"), "respelled": bytes(c["v"] or []).decode("utf-8", "replace"),
+                      "validated": bytes(c["res_q"].get("out") or []).decode("utf-8", "replace"), "validated_respelled": bytes(c["res_v"].get("out") or []).decode("utf-8", "replace")},
+)}
+
+
+LEVEL_TEXT = 'Theorems (Props/C20.v): the tokenizer ignores ASCII letter case; two queries with the same lower-casing get the same answer from the index/NLP pipeline; the CLI's whitespace normal form (the validator's norm) ignores leading, trailing and repeated whitespace. Tied by the engine correspondence, where every case is also run with a randomly re-cased query and must give the bit-identical answer (all paths incl. typo fallback and NLP; queries built from the phrases the current NLP source tests for), and by 400 query / re-spelling pairs (other case, other Unicode whitespace runs) through ValidateQuery, which must hand the engine the same text up to letter case.'
 LEVEL_NOTE = 'Partial: the NLP analysis, the TF-IDF tokenizer (Unicode classes) and the fuzzy matcher are oracles computed from the query by un-modelled code; their case-invariance is compared per case, not proved. CLI whitespace normal form: C14. Trusted: Coq kernel; harness.'
 TECHNIQUE = "Coq proof over the engine model + differential correspondence (vm_compute, bit-exact scores)"
